@@ -98,7 +98,7 @@ def main():
     ap.add_argument("--seed", type=int, default=0)
     ap.add_argument("--jobs", type=int, default=3)
     a = ap.parse_args()
-    ids = a.ids or sorted(x for x in os.listdir(SEEDED) if os.path.isdir(os.path.join(SEEDED, x)))
+    ids = a.ids or sorted(x for x in os.listdir(SEEDED) if os.path.isdir(os.path.join(SEEDED, x)) and not x.startswith("_"))
     global BASE
     os.makedirs(BASE, exist_ok=True)
     BASE = tempfile.mkdtemp(prefix="run%d_" % os.getpid(), dir=BASE)      # private: instances may run concurrently
